@@ -149,6 +149,14 @@ func init() {
 		methods: map[string]bool{"clearBucket": true},
 		imports: []string{"CircuitModel.GoRCConcPrimsC"}, open: []string{"CM", "CM.Go", "CM.GoRCI", "CM.GoRCI.C"}, vars: "", monad: "IM", types: rciTypes,
 	}
+	// K6 for the gate (C16, C03): timedcheck.go once more, over interference primitives (atomics AND RWMutex operations are steps)
+	units["GoTCI"] = &unit{
+		name: "GoTCI", file: "faststats/timedcheck.go", recv: "TimedCheck",
+		funcs:   []string{"SleepStart", "resetOpenTimeWithLock", "Check"},
+		imports: []string{"CircuitModel.GoTCConcPrims"}, open: []string{"CM", "CM.Go", "CM.GoTCI"}, vars: "", monad: "TM",
+		types:    map[string]string{"time.Time": "Int", "time.Duration": "Int", "bool": "Bool", "int64": "Int"},
+		captures: map[string]string{"currentVersion": "Int"},
+	}
 	never := []string{"Success", "ErrFailure", "ErrTimeout", "ErrBadRequest", "ErrInterrupt", "ErrConcurrencyLimitReject", "ErrShortCircuit", "Opened", "Closed"}
 	units["GoNeverOpens"] = &unit{name: "GoNeverOpens", file: "closers.go", recv: "neverOpens", funcs: append([]string{"Prevent", "ShouldOpen"}, never...),
 		imports: []string{"CircuitModel.GoLiveLogicPrims"}, open: []string{"CM", "CM.Go", "CM.GoNever"}, vars: "", monad: "NM", types: consumerTypes}
